@@ -226,3 +226,48 @@ def ultrametric_spec(rng, leaf_labels, shape="binary"):
             sp[1] = h - ch
         items.append(([None, None, [p[0] for p in picked]], h))
     return items[0][0]
+
+
+def shrink_specs(spec):
+    """Yield simpler variants of a tree spec: one leaf removed (a parent left with a single child is spliced out),
+    then all lengths replaced by 1."""
+    import copy
+
+    def leaves_paths(s, path=()):
+        if not s[2]:
+            yield path
+        for i, c in enumerate(s[2]):
+            for p in leaves_paths(c, path + (i,)):
+                yield p
+    paths = list(leaves_paths(spec))
+    if len(paths) > 2:
+        for p in paths:
+            s = copy.deepcopy(spec)
+            parent = s
+            for i in p[:-1]:
+                parent = parent[2][i]
+            del parent[2][p[-1]]
+            # splice out unary internal nodes
+            def fix(n):
+                n[2] = [fix(c) for c in n[2]]
+                if len(n[2]) == 1 and n[0] is None:
+                    ch = n[2][0]
+                    if n[1] is not None and ch[1] is not None:
+                        ch[1] = ch[1] + n[1]
+                    return ch
+                return n
+            s = fix(s)
+            if s[2]:
+                yield s
+    s = copy.deepcopy(spec)
+    changed = [False]
+
+    def unit(n):
+        if n[1] not in (None, 1):
+            n[1] = 1
+            changed[0] = True
+        for c in n[2]:
+            unit(c)
+    unit(s)
+    if changed[0]:
+        yield s
